@@ -9,9 +9,15 @@ pub fn build(t: &Value) -> BoxSource {
   let kind = t["kind"].as_str().unwrap();
   match kind {
     "orig" => OriginalSource::new(t["text"].as_str().unwrap(), t["name"].as_str().unwrap()).boxed(),
-    "raw" => RawSource::from(t["text"].as_str().unwrap()).boxed(),
+    "raw" => match t.get("bytes").and_then(|b| b.as_array()) {
+      Some(b) => RawSource::from(b.iter().map(|x| x.as_u64().unwrap() as u8).collect::<Vec<u8>>()).boxed(),
+      None => RawSource::from(t["text"].as_str().unwrap()).boxed(),
+    },
     "rawstr" => RawStringSource::from(t["text"].as_str().unwrap()).boxed(),
-    "rawbuf" => RawBufferSource::from(t["text"].as_str().unwrap().as_bytes()).boxed(),
+    "rawbuf" => match t.get("bytes").and_then(|b| b.as_array()) {
+      Some(b) => RawBufferSource::from(b.iter().map(|x| x.as_u64().unwrap() as u8).collect::<Vec<u8>>()).boxed(),
+      None => RawBufferSource::from(t["text"].as_str().unwrap().as_bytes()).boxed(),
+    },
     "concat" => {
       let ch: Vec<BoxSource> = t["children"].as_array().unwrap().iter().map(build).collect();
       ConcatSource::new(ch).boxed()
@@ -249,6 +255,9 @@ pub fn observe(v: &Value) -> Value {
       if let Some(x) = guard("buffer", &mut || json!(String::from_utf8_lossy(&src.buffer()).to_string())) {
         views.insert("buffer".into(), x);
       }
+      if let Some(x) = guard("buffer", &mut || json!(src.buffer().to_vec())) {
+        views.insert("buffer_bytes".into(), x);
+      }
     }
     if want("size") {
       if let Some(x) = guard("size", &mut || json!(src.size())) {
@@ -259,9 +268,10 @@ pub fn observe(v: &Value) -> Value {
       if let Some(x) = guard("writer", &mut || {
         let mut w: Vec<u8> = Vec::new();
         src.to_writer(&mut w).unwrap();
-        json!(String::from_utf8_lossy(&w).to_string())
+        json!({"s": String::from_utf8_lossy(&w).to_string(), "b": w})
       }) {
-        views.insert("writer".into(), x);
+        views.insert("writer".into(), x["s"].clone());
+        views.insert("writer_bytes".into(), x["b"].clone());
       }
     }
     if want("writerfail") {
@@ -286,7 +296,7 @@ pub fn observe(v: &Value) -> Value {
         }
         let mut w = W { k, buf: Vec::new() };
         let r = src.to_writer(&mut w);
-        json!({"written": String::from_utf8_lossy(&w.buf).to_string(), "err": r.is_err(), "k": k})
+        json!({"written": String::from_utf8_lossy(&w.buf).to_string(), "written_bytes": w.buf, "err": r.is_err(), "k": k})
       }) {
         views.insert("writerfail".into(), x);
       }
